@@ -45,6 +45,8 @@ pub struct Observation {
    pub sched: SchedRecord,
    pub counters: verif_rt::Counters,
    pub pool_stats: [u64; rayon_core::sim::N_STATS],
+   /// violation found by an oracle that is evaluated inside the execution (C19)
+   pub inline: Option<crate::oracle::Violation>,
 }
 
 static PANICS: Mutex<Vec<String>> = Mutex::new(Vec::new());
@@ -138,7 +140,7 @@ fn run_actor(ai: usize, actor: &Actor, pools: &[rayon_core::ThreadPool], snaps: 
    }
 }
 
-fn run_case(case: &Case, snaps: &Arc<Mutex<Vec<Snap>>>) {
+fn run_case(case: &Case, snaps: &Arc<Mutex<Vec<Snap>>>, inline: &Arc<Mutex<Option<crate::oracle::Violation>>>) {
    rayon_core::sim::begin_execution(rayon_core::sim::SimConfig {
       global_threads: case.knobs.global_threads,
       steal_permille: case.knobs.steal_permille,
@@ -151,6 +153,12 @@ fn run_case(case: &Case, snaps: &Arc<Mutex<Vec<Snap>>>) {
       empty_mask: case.knobs.empty_mask,
       noise_seed: case.knobs.noise_seed,
    });
+   if let Some(sc) = &case.index_scenario {
+      if let Err(v) = crate::c19::run_scenario(sc) {
+         *inline.lock().unwrap() = Some(v);
+      }
+      return;
+   }
    let pools: Arc<Vec<rayon_core::ThreadPool>> = Arc::new(
       case.pools.iter().map(|n| rayon_core::ThreadPoolBuilder::new().num_threads(*n).build().unwrap()).collect(),
    );
@@ -200,8 +208,10 @@ pub fn execute(case: &Case) -> Observation {
    PANICS.lock().unwrap().clear();
    let case2 = Arc::new(case.clone());
    let snaps2 = snaps.clone();
+   let inline = Arc::new(Mutex::new(None));
+   let inline2 = inline.clone();
    let res = panic::catch_unwind(AssertUnwindSafe(|| {
-      shuttle::Runner::new(sched, cfg).run(move || run_case(&case2, &snaps2));
+      shuttle::Runner::new(sched, cfg).run(move || run_case(&case2, &snaps2, &inline2));
    }));
    let counters = verif_rt::end();
    let pool_stats = rayon_core::sim::take_stats();
@@ -227,5 +237,6 @@ pub fn execute(case: &Case) -> Observation {
    };
    let sched = out.lock().unwrap().clone();
    let snaps = std::mem::take(&mut *snaps.lock().unwrap());
-   Observation { snaps, failure, sched, counters, pool_stats }
+   let inline = inline.lock().unwrap().take();
+   Observation { snaps, failure, sched, counters, pool_stats, inline }
 }
